@@ -1,4 +1,6 @@
 import UtilModel.Conc.Proofs3
+import UtilModel.Conc.Sim
+import UtilModel.Conc.SimFifo
 /-!
 # conc.ConcurrentQueue — property C18, for every event list
 
@@ -158,6 +160,30 @@ theorem quiescent_waiters (es : List Ev) (s : St) (h : model.run model.init es =
     (∀ (q r : Int) (ch : Nat), s.th[t]? = some (.wsParked q r ch) →
         r = ((activeJobs s).length : Nat) ∧ s.qsize ≤ q) :=
   quiescent_waiters_aux s (reachable_inv es s h) hq t
+
+/-- **C18, observable form.** Every observable trace of the model is accepted by the monitor `monC18`:
+bounded parallelism; each job entered at most once and only if enqueued and non-nil; under limit 1
+every job enqueued before (an earlier argument of the same call, or a job of a call that had returned
+when this job's call was invoked) has been started; the reported-pair condition for every `Enqueue`
+result and every `WatchState` callback; `WaitIdle` returning nil only after the jobs of calls that had
+returned at its invocation have finished; and at every quiescence point work conservation (hence
+every job exactly once after all are released) and no lost wake-up for both waiters — for every limit,
+number of producers, batch split, interleaving and job duration. -/
+theorem C18_obs (es : List Ev) (s : St) (h : model.run model.init es = some s) :
+    monC18.accepts (es.filterMap model.obs) = true :=
+  monitor_accepts_of_simulation model (monC18g true) RelFull relFull_init
+    (fun s e s' ms hR hs => by
+      have h := sim_step_full s e s' ms hR hs
+      cases e <;> exact h) es s h
+
+/-- the same for the monitor without its enqueue-order clause (the core simulation `C18_obs` is
+built on) -/
+theorem C18_obs_core (es : List Ev) (s : St) (h : model.run model.init es = some s) :
+    (monC18g false).accepts (es.filterMap model.obs) = true :=
+  monitor_accepts_of_simulation model (monC18g false) RelC18 relC18_init
+    (fun s e s' ms hR hs => by
+      have h := sim_step s e s' ms hR hs
+      cases e <;> exact h) es s h
 
 /-! ## the hypotheses are satisfiable; the model does something non-trivial -/
 
